@@ -4,6 +4,7 @@ import (
 	"encoding/json"
 	"flag"
 	"fmt"
+	"golang.org/x/tools/go/ssa"
 	"os"
 	"path/filepath"
 	"regexp"
@@ -20,6 +21,7 @@ type PropCfg struct {
 	// Sweep: additional functions (by key prefix) verified without contract for the given families
 	SweepPrefixes []string
 	SweepFamilies []string
+	SweepGuarded  bool   // also verify (family LOCK) every function that touches a guarded_by global
 	Replay        string // decoder name
 	Composition   string // the unchecked step from per-function contracts to the property
 }
@@ -169,6 +171,7 @@ func cmdCheck(args []string) int {
 		}
 	}
 	exit := 0
+	var unguarded []string
 	// unbound contracts
 	for _, k := range targets {
 		if w.Funcs[k] == nil {
@@ -199,6 +202,29 @@ func cmdCheck(args []string) int {
 			}
 		}
 		results = append(results, verifyAll(w, sp, mods, sweep, familySet(cfg.SweepFamilies), work, timeout, confirm)...)
+	}
+	if cfg.SweepGuarded {
+		under := map[string]bool{}
+		for _, r := range results {
+			under[r.Key] = true
+		}
+		var sweep []string
+		for _, fn := range w.AllFuncs {
+			k := w.FuncKey[fn]
+			if under[k] || !touchesGuarded(w, sp, fn) {
+				continue
+			}
+			sweep = append(sweep, k)
+		}
+		results = append(results, verifyAll(w, sp, mods, sweep, familySet([]string{"LOCK"}), work, timeout, confirm)...)
+		// enumeration: every package-level container mutated after initialisation must be guarded
+		for g, fns := range mods.MutatedGlobals {
+			gname := shortPkg(g.Pkg.Pkg.Path()) + "." + g.Name()
+			if _, ok := sp.GuardedBy[gname]; !ok {
+				fmt.Printf("  failed obligation LOCK.unguarded-global %s (written after initialisation by %s, no guarded_by declaration)\n", gname, strings.Join(sortedKeys(fns), ", "))
+				unguarded = append(unguarded, gname)
+			}
+		}
 	}
 	// lemmas
 	lemmaObls := verifyLemmas(w, sp, mods, id, work, timeout, confirm)
@@ -312,6 +338,40 @@ func cmdCheck(args []string) int {
 	}
 	for _, o := range lemmaObls {
 		handle(o.Fn, true, o)
+	}
+	for _, gname := range unguarded {
+		nObl++
+		nViol++
+		rp := filepath.Join(replayDir, "LOCK.unguarded-global."+sanitizeFile(gname)+".json")
+		b, _ := json.MarshalIndent(map[string]string{"property": id, "obligation": "LOCK.unguarded-global " + gname,
+			"detail": "package-level container written after initialisation without a guarded_by declaration"}, "", " ")
+		os.WriteFile(rp, b, 0o644)
+		violLines = append(violLines, fmt.Sprintf("VIOLATION property=%s replay=%s no-failing-input-found", id, rp))
+	}
+	if cfg.SweepGuarded {
+		nObl++ // the enumeration obligation itself
+		if len(unguarded) == 0 {
+			nDis++
+		}
+	}
+	// global invariants: decided by executing package initialisation
+	ginv := checkGlobalInvs(w, sp, mods)
+	nGinv, nGinvOK := 0, 0
+	for _, g := range ginv {
+		nGinv++
+		nObl++
+		if g.OK {
+			nGinvOK++
+			nDis++
+			backends["go test (execution of package initialisation)"]++
+			continue
+		}
+		nViol++
+		rp := filepath.Join(replayDir, "GLOBALINV."+sanitizeFile(g.Name)+".json")
+		b, _ := json.MarshalIndent(map[string]string{"property": id, "obligation": "GLOBALINV " + g.Name, "detail": g.Detail}, "", " ")
+		os.WriteFile(rp, b, 0o644)
+		fmt.Printf("  failed obligation GLOBALINV %s :: %s\n", g.Name, g.Detail)
+		violLines = append(violLines, fmt.Sprintf("VIOLATION property=%s replay=%s", id, rp))
 	}
 	for _, l := range violLines {
 		fmt.Println(l)
@@ -483,4 +543,19 @@ func cmdReplay(args []string) int {
 	}
 	fmt.Println(string(b))
 	return 0
+}
+
+func touchesGuarded(w *World, sp *Specs, fn *ssa.Function) bool {
+	for _, b := range fn.Blocks {
+		for _, ins := range b.Instrs {
+			for _, op := range ins.Operands(nil) {
+				if g, ok := (*op).(*ssa.Global); ok {
+					if _, guarded := sp.GuardedBy[shortPkg(g.Pkg.Pkg.Path())+"."+g.Name()]; guarded {
+						return true
+					}
+				}
+			}
+		}
+	}
+	return false
 }
